@@ -735,6 +735,12 @@ theorem taint_sound (L : Libm) (s : Bytes) (t : Tree) (eT : Expr TV) (h : compil
     ∃ e, compile (arith L) s = .ok (t, e) ∧ ∀ x, eT.eval arithT bT = some x → x = e.eval (arith L) b :=
   taint_sound_aux L s t eT h bT b ⟨hk, hm⟩
 
+/-- …and the two arithmetics accept exactly the same formula texts (so the driver's `err …` answers are
+    compile errors of `arith L` as well). -/
+theorem taint_same_formulas (L : Libm) (s : Bytes) :
+    (∃ t eT, compile arithT s = .ok (t, eT)) ↔ (∃ t e, compile (arith L) s = .ok (t, e)) :=
+  compile_ok_iff L s
+
 /-- `sin(x)+1` is tainted, `sqrt(x)+1`, `x^3` and `x^-2` are not (x = 2.0). -/
 example :
     let bT : Binding TV := ⟨fun _ => some zeroP, fun _ => some (ofBits 0x4000000000000000)⟩
